@@ -371,6 +371,10 @@ class CtlWorld:
                     self.release_all()
                 elif k == "stop_serving":
                     self.stop_serving()
+                elif k == "rebind":
+                    # user code rebinds a module attribute between two commands: a dotted path means what it names NOW
+                    setattr(ctlfuncs, c["name"], getattr(ctlfuncs, c["to"]))
+                    setattr(ctlfuncs_twin, c["name"], getattr(ctlfuncs_twin, c["to"]))
                 else:
                     raise ValueError(k)
             self.idle()
